@@ -139,7 +139,8 @@ class FatIO(io.RawIOBase):
             if size + self.__bpos > self.dir_entry.filesize or size < 0:
                 size = self.dir_entry.filesize - self.__bpos
 
-            if size == 0:
+            if size <= 0:
+                # Nothing to read, or position is at/behind the end of file
                 return b""
 
             chunks = []
